@@ -143,8 +143,8 @@ MANIFEST = {
                    "strings), csr_cannot_inject and metadata_cannot_inject (non-interference), impersonation_gate (conditions exactly as coded), never_ca, "
                    "binds_csr_key, ttl_bounds, errors_not_crashes; authenticator post-processing theorems incl. oidc_sub_total. The model is tied to /repo on "
                    "every run by a differential over the real CA and server on parsed leaf certificates."),
-    "level_note": ("Trusted: Lean kernel + {propext, Classical.choice, Quot.sound}; the hand-written model (tied by differential testing: ~1500 cases / "
-                   "~4000 real CreateCertificate calls quick, 30000 cases thorough, plus the authenticator stream); crypto/x509 + ASN.1 as an opaque encoding with "
+    "level_note": ("Trusted: Lean kernel + {propext, Classical.choice, Quot.sound}; the hand-written model (tied by differential testing: 1500 cases / "
+                   "~4300 real CreateCertificate calls + 3000 authenticator cases quick; 30000 + 60000 thorough); crypto/x509 + ASN.1 as an opaque encoding with "
                    "decode(encode d)=d; a nominal clock; verif-tagged accessor files zz_verif_c09.go. Not modelled: signature validity, serial numbers, token "
                    "cryptography / TokenReview / JWKS, gRPC transport, root-cert rotation, Failed pods. Lifetime<=max needs default<=max configured."),
     "technique": "Lean 4 theorems over an exact model of the issuance data flow + differential correspondence with the real CA/server on parsed certificates",
